@@ -264,4 +264,24 @@ distinct = distinct query lines."
         }
         tree_case(w, &a, &b, &z, i % 4 != 3, "wide");
     }
+    // 6. RUN BOUNDARIES: the chained key list keys(A) ++ keys(B), sorted, holds a path present on both sides twice, side by side.
+    // c - 1 (± 1) one-sided paths that sort first push the two copies of the first common path onto positions c - 1 and c for
+    // c a power of two — where an implementation that cuts the sorted list into runs (parallel chunks, merge passes) and removes
+    // duplicates only INSIDE a run decides the path twice (seed C18-J: rayon `par_chunks(1024)`).
+    let cs: &[usize] = if thorough { &[16, 32, 64, 128, 256, 512, 1024, 2048, 4096, 8192] } else { &[64, 256, 1024, 4096] };
+    for &c in cs {
+        for off in [0usize, 1, 2] {
+            let (mut a, mut b, mut z) = (FpMap::new(), FpMap::new(), FpMap::new());
+            for k in 0..(c + off).saturating_sub(2) {
+                a.insert(PathBuf::from(format!("0-first/{k:05}")), mk(1, 0));
+            }
+            for k in 0..6 {
+                let nme = PathBuf::from(format!("m/common{k}"));
+                a.insert(nme.clone(), mk(1 + (k % 3) as u8, 0));
+                b.insert(nme.clone(), mk(2, 0));
+                if k % 2 == 0 { z.insert(nme, mk(0, 0)); }
+            }
+            tree_case(w, &a, &b, &z, off != 2, "run-boundary");
+        }
+    }
 }
